@@ -2945,6 +2945,12 @@ func (dsc *dataStoreCommand) sort(sourceKeyName, byPattern, destKeyName string, 
 	} else {
 		sk, objExists := dsc.getKeyObjectUnlocked(sourceKeyName)
 		if !objExists {
+			if destKeyName != "" {
+				// nothing to store: the destination ends up missing
+				dsc.ds.data.remove(destKeyName)
+				output.data = respInt(0)
+				return
+			}
 			output = nativeValueToResp([]any{})
 			return
 		}
@@ -3089,6 +3095,12 @@ func (dsc *dataStoreCommand) sort(sourceKeyName, byPattern, destKeyName string, 
 	}
 
 	if destKeyName != "" {
+		// STORE replaces whatever the destination held
+		dsc.ds.data.remove(destKeyName)
+		if len(a) == 0 {
+			output.data = respInt(0)
+			return
+		}
 		list := dsc.newListUnlocked(destKeyName)
 
 		for _, element := range a {
